@@ -228,6 +228,11 @@ def modelOf (g : Py) : Option PModel :=
 def rootItems (m : PModel) : List (Text × Py) :=
   [(kCells, m.cells), (kDefinedNames, m.definedNames), (kFormulae, m.formulae), (kRanges, m.ranges)]
 
+/-- a receiving object that is not fresh: it holds a cell, a name, a formula and a range of its own -/
+def usedObject : PModel :=
+  let junk := [("Junk!Z9".toList, Py.obj clsCell [(fAddress, .str "Junk!Z9".toList), (fValue, .int 7)])]
+  ⟨.dict junk, .dict junk, .dict junk, .dict junk⟩
+
 def handle (fields : List String) : String :=
   match fields with
   | ["CODEC", f] =>
@@ -256,7 +261,7 @@ def handle (fields : List String) : String :=
             match persist cfg lowerAscii m fname with
             | .error c => "X:" ++ c.wire
             | .ok file =>
-              match construct cfg lowerAscii parse file fname (bc == "1") with
+              match construct cfg lowerAscii parse usedObject file fname (bc == "1") with
               | .error c => "X:" ++ c.wire
               | .ok r => obsWire (observe r)
           kv [("impl", impl), ("spec", obsWire (observe m)),
